@@ -83,7 +83,7 @@ What `_partial` lacks with respect to `Frag01`:
     alias with "last registered wins", payload aliases "first inserted wins") to the standard non‑recursive scoping of
     `Spec.rdCtes`; the specification side is already general (`mem_rdQuery_iff` holds for every query and every scope);
   * subqueries inside select items that `sqItems` does discover (function arguments, CAST operand, WHEN/THEN operands
-    of the first CASE): `Frag01` admits them (`nItemFound e = nSub e`), `fragQ` asks for subquery‑free items;
+    of the first CASE): `Frag01` allows them (`nItemFound e = nSub e`), `fragQ` asks for subquery‑free items;
   * a parenthesised WHERE operand whose first‑bracket chain reaches its only subquery (`Spec.chainFinds`).
 These shapes are covered by the differential check of `harness/c01.py` only.
 -/
